@@ -196,8 +196,8 @@ class QBitsTensor(QTensor):
             functional = functional_variant(overload)
             if functional is not None:
                 # In-place operation: the fallback would only modify a dequantized copy of the Tensor
-                if op == torch.ops.aten.copy_ and isinstance(args[1], QBitsTensor):
-                    # (a Tensor quantized the same way is copied as it is)
+                if op == torch.ops.aten.copy_ and isinstance(args[1], QBitsTensor) and args[1].shape == args[0].shape:
+                    # (a Tensor quantized the same way is copied as it is; a source that must be broadcast goes through the copy)
                     return args[0]._update(args[1])
                 return args[0]._update(functional(*args, **(kwargs or {})))
         # No dispatch available: qfallback
